@@ -12,10 +12,13 @@
    of that document into a new field / a new message of the same specification gives the state back - the same value
    for primitives (binary values through their hexadecimal text), the same set subfields with the same contents at
    every depth for composites, the same MTI, bitmap field, populated set and element contents for messages
-   (C12_field_roundtrip, C12_message_roundtrip). That encoding/json parses the text to that document is Go's library
+   (C12_field_roundtrip, C12_message_roundtrip). Go decodes the members of the message object in map order, the model
+   walks a list: for an accepted document with distinct element numbers every arrangement of the members is accepted
+   and gives the same message up to the order in which the populated set was filled (C12_decode_order_irrelevant). That encoding/json parses the text to that document is Go's library
    (outside the model): the oracle checks json.Valid, key order, UnmarshalJSON into a fresh message and identical
    re-pack on the library, and the JSON text is compared byte for byte with the model's. *)
-From Iso Require Import Model.Base Model.Sexp Model.Padding Model.Encoding Model.Prefix Model.Bitmap Model.Spec Model.Field Model.Message Model.Json Model.MessageOps Proofs.BaseLemmas Proofs.StateProofs Proofs.CompositeProofs Proofs.JsonProofs Proofs.JsonRoundtrip.
+From Iso Require Import Model.Base Model.Sexp Model.Padding Model.Encoding Model.Prefix Model.Bitmap Model.Spec Model.Field Model.Message Model.Json Model.MessageOps Proofs.BaseLemmas Proofs.StateProofs Proofs.CompositeProofs Proofs.JsonProofs Proofs.JsonRoundtrip Proofs.JsonOrder.
+From Coq Require Import Sorting.Permutation.
 
 Theorem C12_total : forall S m, is_ok (snd (m_json S m)) = is_ok (snd (m_pack S m)) /\ fst (m_json S m) = fst (m_pack S m).
 Proof. exact m_json_total. Qed.
@@ -71,6 +74,12 @@ Theorem C12_message_roundtrip : forall S m, mjdom S m ->
     (forall id, In id (m_present m) -> 2 <= id -> exists s x y, zlookup id (ms_fields S) = Some s /\ zlookup id (m_fields m) = Some x /\ zlookup id (m_fields m') = Some y /\ equiv s x y).
 Proof. exact m_json_doc_roundtrip. Qed.
 Print Assumptions C12_message_roundtrip.
+
+(* the members of an accepted document may come in any order (Go ranges over a map) *)
+Theorem C12_decode_order_irrelevant : forall S m l l' m1, Permutation l l' -> NoDup (map kid l) ->
+  m_from_json S m l = (m1, Ok tt) -> exists m2, m_from_json S m l' = (m2, Ok tt) /\ meq m1 m2.
+Proof. exact from_json_order_irrelevant. Qed.
+Print Assumptions C12_decode_order_irrelevant.
 
 (* an instance: a tagged composite holding a numeric and a binary subfield *)
 Definition c12 : fspec :=
